@@ -4,5 +4,5 @@ S=$1; P=$2; T=${3:-quick}
 R=$(mktemp -d /tmp/try_seed.XXXXXX)
 git clone -q /repo $R/repo || exit 1
 git -C $R/repo apply --3way /verif/seeded/$S/patch.diff >/dev/null 2>&1 || { echo "patch does not apply"; rm -rf $R; exit 1; }
-cd /verif && ./check $P $T -no-evidence -repo $R/repo/v8 2>&1 | grep -E "^(VIOLATION|UNCONFIRMED|INCONCLUSIVE|RESULT|KNOWN)" | cut -c1-260 | awk '{k=$1" "$4" "$5; if(!(k in s)){s[k]=1; print}}' | head -${4:-8}
+cd /verif && ./check $P $T -no-evidence -witness 0 -repo $R/repo/v8 2>&1 | grep -E "^(VIOLATION|UNCONFIRMED|INCONCLUSIVE|RESULT|KNOWN)" | cut -c1-260 | awk '{k=$1" "$4" "$5; if(!(k in s)){s[k]=1; print}}' | head -${4:-8}
 rm -rf $R
